@@ -9,6 +9,13 @@ LEVEL_NOTE = ("Trusted base: clang 14 front end and CFG builder, the gsa-extract
               "Assumes the shipped configuration (GALOIS_USE_LONGJMP_ABORT, NDEBUG).")
 
 CHECKS = {
+    "C11": ("narrow: exhaustive classification of every non-local write in every body passed to do_all/on_each in the "
+            "local-computation graph headers and FileGraph, and in every per-thread constructFrom builder, for the driver "
+            "matrix: each is owner-indexed (loop element / own partition), owner CSR range of a prefix array, a slot claimed by "
+            "atomic fetch-and-add, an atomic RMW, or per-thread; no neighbour read of an array written in the same body. "
+            "Decides absence of these data races in the parallel builders for all inputs and schedules; does not decide that "
+            "the built graph equals the input.",
+            "owner-computes-or-atomic write classification (RACE) over clang AST facts", "4 C11"),
     "C10": ("exhaustive evaluation, on every CFG path of every morph-graph flavour x mutator instantiation of the driver matrix "
             "(three implementations), of: acquire of the same node dominates every touch of its edge vector / active flag, with "
             "the caller's flag; all acquisitions precede the first mutation; both endpoint entries inserted with the same "
